@@ -16,6 +16,38 @@ def _hist_nontrivial(sx, v, meta):
     return v[0] == 'ok' and len(v[2]) > 0 and int(v[2][0]) >= 2
 
 PROPS = {
+    'C06': dict(
+        judge='C06', judge_module='Judge.J06', judge_fn='judge_C06',
+        cases=dict(quick=9000, thorough=60000),
+        rule='the C01 case stream (exhaustive 2-variable clause lists, then random / structured CNF) with certificate generation '
+             'on (channel) x learned-clause limit default/4/20; every emitted line is replayed in order by the verified checker '
+             'rup_check (coq/Model/Rup.v, C06_checker), Unsat answers must contain or UP-derive the empty clause, verdict and model '
+             'are judged as in C01; non-trivial = at least one certificate line was emitted',
+        nontrivial=lambda sx, v, meta: v[0] == 'ok' and len(v[2]) > 1 and int(v[2][-1]) > 0,
+        stats=_verdict_stats,
+        assumptions=['the certificate channel is drained by the harness; stdout sink is exercised in C19'],
+    ),
+    'C07': dict(
+        judge='C07', judge_module='Judge.J06', judge_fn='judge_C07',
+        cases=dict(quick=4000, thorough=40000),
+        rule='CNF problems over 2..6 (quick) / 2..8 (thorough) variables, up to 14 clauses: one core plus noise, two independent '
+             'cores, random, with unit clauses, repeated clauses, trivially conflicting units; x methods MUS, MUSDeletion, '
+             'MUSInsertion, MUSMaxSat (rotating); receiver deep-copied before and compared after; non-trivial = unsatisfiable input '
+             'whose MUS has at least 2 clauses',
+        nontrivial=lambda sx, v, meta: v[0] == 'ok' and len(v[2]) > 1 and int(v[2][0]) == 2 and int(v[2][1]) >= 2,
+        assumptions=['clauses are compared as literal lists (a MUS clause must appear with the same literal order as in the input)'],
+    ),
+    'C08': dict(
+        parts=[dict(harness='C08', judge='C08', cases=dict(quick=5000, thorough=50000), judge_module='Judge.J06', judge_fn='judge_C08'),
+               dict(harness='C08s', judge='C08s', cases=dict(quick=2000, thorough=20000))],
+        rule='part 1: (CNF problem, certificate) pairs over 2..7 (quick) / 2..10 (thorough) variables: genuine solver traces, traces '
+             'with one literal dropped or flipped, one line removed, lines permuted, random clause sequences (with tautological and '
+             'repeated-literal lines); reader and channel entry points; each pair checked twice on the same Problem; '
+             'accepted => every line entailed (oracle); every line RUP for the verified checker => accepted. part 2: UnsatSubset on '
+             'CNF problems with one or several cores; non-trivial = certificate with at least 2 lines / unsatisfiable input',
+        nontrivial=lambda sx, v, meta: v[0] == 'ok' and (sx.count('(') > 12),
+        assumptions=[],
+    ),
     'C14': dict(
         parts=[dict(harness='C14', judge='C14', cases=dict(quick=6000, thorough=50000), judge_module='Judge.J14', judge_fn='judge_C14'),
                dict(harness='C14opt', judge='C03', cases=dict(quick=3000, thorough=30000))],
